@@ -51,7 +51,7 @@ def replace_row1(x, prefix):
 def make_job(method, noise, opts, stypes=None):
     def fn(E, rep, tier):
         B, d = 2, 2
-        m = 1 if noise == 'scalar' else 2
+        m = 1 if noise == 'scalar' else (2 if noise == 'diagonal' else 3)
         sts = ['ito', 'stratonovich'] if method == 'milstein' else [X.SDE_TYPE[method]]
         for st in sts:
             tag = f'C20/{method}[{st},{noise}{",grad_free" if opts else ""},B={B},d={d},m={m}]'
